@@ -53,9 +53,18 @@ def run(chk):
     chk.trusted = ["Lean 4.33 kernel", "axioms ⊆ {propext, Classical.choice, Quot.sound}",
                    "hand-written model GE/Model/Path.lean tied by exhaustive differential run against path.rs via cfg hook",
                    "harness line codec", "python reference resolver (oracle)"]
-    chk.assumptions = ["TmplGroup::add_tmpl does not normalise its path argument (only the wasm binding does); "
+    chk.trusted.append("hand-written model GE/Model/Link.lean (the lookup table `S` the emitted code builds with Object.assign / delete) tied by corr:link: "
+                       "what the real compiler + runtime instantiate for every <template is> of generated multi-file groups vs the model")
+    chk.assumptions = ["lookup_order (GE/Thm/C13Link.lean): over the model of the table the emitted code builds, a <template is> finds a local definition "
+                       "first, otherwise the definition in the LAST import (source order) whose target is registered and defines the name, never the main "
+                       "template; any registered files, any import list (repetitions, unregistered targets), any name. JavaScript objects are modelled as "
+                       "association lists (get = latest write); PARTIAL: that dependency queries list exactly the resolved targets is oracle only",
+                       "TmplGroup::add_tmpl does not normalise its path argument (only the wasm binding does); "
                        "the property is checked on the resolver and on the group API with normalised registration paths"]
     failed, log = chk.prove("GE.Thm.C13", THEOREMS)
+    for t in failed:
+        chk.violation("proof", f"obligation {t} no longer checks", theorem=t, log=log[-2000:])
+    failed, log = chk.prove("GE.Thm.C13Link", ["GE.Link.lookup_order", "GE.Link.local_first", "GE.Link.main_not_callable", "GE.Link.get_merged"])
     for t in failed:
         chk.violation("proof", f"obligation {t} no longer checks", theorem=t, log=log[-2000:])
     ok, log = core.lake_build(["gedriver"])
@@ -146,6 +155,7 @@ def group_stream(chk):
     quick = chk.tier != "thorough"
     rng = chk.rng.fork("c13-groups")
     cases = []
+    link_req = {}
     for i in range(150 if quick else 3000):
         r = rng.fork(i)
         files = {}
@@ -168,8 +178,10 @@ def group_stream(chk):
         if r.chance(1, 2) and len(targets) >= 2:
             targets.append(targets[0])          # the same file imported again, after another one
         src = ""
+        written = []
         for t in targets:
-            src += '<import src="%s"/>' % spellings(r, main, t, ".wxml")
+            written.append(spellings(r, main, t, ".wxml"))
+            src += '<import src="%s"/>' % written[-1]
             exp_deps.append(t)
         local = [t for t in ("t", "u") if r.chance(1, 3)]
         src += "".join('<template name="%s">[%s:%s]</template>' % (t, main, t) for t in local)
@@ -192,6 +204,9 @@ def group_stream(chk):
         exp_sdeps.append(sp)
         expected += "S:" + sp
         files[main] = src
+        tail = "(%s:main)S:%s" % (inc, sp)
+        link_req[len(cases)] = (core.req("link", main, ",".join(local), "t,u,v", str(len(written)), *written,
+                                         *[x for p in chosen[1:] for x in (p, ",".join(defs[p]))]), tail)
         cases.append((main, files, scripts, expected, sorted(exp_deps), sorted(exp_sdeps), r))
     reqs, meta = [], []
     for ci, (main, files, scripts, expected, deps, sdeps, r) in enumerate(cases):
@@ -247,6 +262,16 @@ def group_stream(chk):
             if nb <= 4:
                 chk.violation("input", f"group rendering of {main!r} gives {got!r}, the references resolve to {expected!r} (insertion order variant {variant})",
                               files=files, main=main, expected=expected, got=got)
+    # corr:link — the model of the lookup table the emitted code builds (GE/Model/Link.lean, theorem lookup_order) against what the real
+    # compiler + runtime instantiate for every <template is> of the main file (insertion order variant 0)
+    lreqs, lreal = [], []
+    for (ci, variant), o in zip(rmeta, outs):
+        if variant == 0 and o.get("snapshots"):
+            lreqs.append(link_req[ci][0])
+            lreal.append(text_of(o["snapshots"][0]["tree"]))
+    lmodel = [core.unesc(a) + link_req[ci][1] for a, ci in zip(core.run_driver(lreqs), [ci for (ci, v), o in zip(rmeta, outs) if v == 0 and o.get("snapshots")])] \
+        if core.MODEL_OK else lreal
+    core.diff_streams(chk, "link", lreqs, lreal, lmodel)
     chk.bump("oracle:groups", len(cases))
     chk.bump("oracle:group-mismatches", nb)
 
